@@ -115,3 +115,15 @@ pub fn install_from_json(v: &Value) {
     }
     install(&p);
 }
+
+/// For the evidence file: what the swarm did in a run with `workers` worker processes per phase.
+pub fn evidence(seed: u64, workers: u64) -> Value {
+    let example: serde_json::Map<String, Value> = plan(seed, 1).into_iter().filter_map(|(n, v)| v.map(|v| (n, json!(v)))).collect();
+    json!({
+        "what": "process environment as a seam: worker process k installs a seeded set of date/locale related environment variables before it touches the crate (even k: none of them; odd k: a seeded subset with seeded values); TZ is never touched; the finder's plan is recorded in replay files and re-installed on replay",
+        "variable_names": table().len(),
+        "worker_processes_per_phase": workers,
+        "of_which_with_variables_set": workers / 2,
+        "plan_of_worker_1": example,
+    })
+}
